@@ -182,6 +182,24 @@ class LogQueue:
     log = []
     victim = -1
     kill_before = -1
+    how = "exit3"
+
+    @staticmethod
+    def die():
+        """The ways a worker may end without its completion marker: a crash (non-zero status), a kill (signal), an
+        exception escaping the worker function, and an exit with status 0 (e.g. sys.exit(0) from a signal handler)."""
+        import signal
+        if LogQueue.how == "exit0":
+            os._exit(0)
+        if LogQueue.how == "sigkill":
+            os.kill(os.getpid(), signal.SIGKILL)
+        if LogQueue.how == "sysexit0":
+            os.close(2)            # keep the traceback-free exit quiet
+            sys.exit(0)
+        if LogQueue.how == "raise":
+            os.close(2)
+            raise RuntimeError("injected failure inside the worker")
+        os._exit(3)
 
     def __init__(self, *a, **k):
         import multiprocessing
@@ -191,7 +209,7 @@ class LogQueue:
     def put(self, x):
         self.nput += 1
         if x[0] == LogQueue.victim and self.nput == LogQueue.kill_before:
-            os._exit(3)
+            LogQueue.die()
         self.q.put((x[0], x[1], x[2].copy()))
 
     def get(self, *a, **k):
@@ -206,13 +224,14 @@ class LogQueue:
         return self.get(block=False)
 
 
-def real_run(sc, victim=-1, kill_before=-1, deadline=25.0, prior=0):
+def real_run(sc, victim=-1, kill_before=-1, deadline=25.0, prior=0, how="exit3"):
     import importlib
     import multiprocessing
     importlib.reload(mps)
     LogQueue.log = []
     LogQueue.victim = victim
     LogQueue.kill_before = kill_before
+    LogQueue.how = how
     mps.Queue = LogQueue
     solvers, _ = make_solvers(sc)
     m = mps.MultiprocessingSolver(solvers, log_level="ERROR")
@@ -276,7 +295,7 @@ def main():
         elif job["kind"] == "fault":
             for f in job["faults"]:
                 r = real_run(f["sc"], victim=f["victim"], kill_before=f["kill_before"], deadline=f.get("deadline", 20.0),
-                             prior=f.get("prior", 0))
+                             prior=f.get("prior", 0), how=f.get("how", "exit3"))
                 r.update({"id": f["id"], "victim": f["victim"], "kill_before": f["kill_before"]})
                 fh.write(json.dumps(r, separators=(",", ":")) + "\n")
         fh.flush()
